@@ -162,6 +162,15 @@ def check(model, R, tier):
     cp = model.func(TMOD + '.Evaluator.__compute')
     pf = [n for n in ast.walk(cp.node) if isinstance(n, ast.JoinedStr)]
     R.ob('C20.HISTORY', cp.qualname, 'prefixed name %s' % [norm(p) for p in pf], any(norm(p) == "f'{prefix}_{m}'" for p in pf), 'prefixed metric names are <prefix>_<name>', cp.loc)
+    # the prefix is applied to ALL metrics (built-in and callback ones): every extension of the metrics list precedes the prefixing block
+    ccfg = CFG(cp.node)
+    ext = [n for n in body_walk(cp.node) if isinstance(n, ast.AugAssign) and norm(n.target) == 'metrics'] + \
+          [n for n in body_walk(cp.node) if isinstance(n, ast.Expr) and isinstance(n.value, ast.Call) and norm(n.value.func) in ('metrics.append', 'metrics.extend')]
+    pref = [n for n in cp.node.body if isinstance(n, ast.If) and 'prefix' in norm(n.test)]
+    okx = len(pref) == 1 and bool(ext) and all(not ccfg.path_exists(pref[0], e) for e in ext)
+    lastret = cp.node.body[-1]
+    okx = okx and isinstance(lastret, ast.Return) and norm(lastret.value) == 'metrics' and cp.node.body.index(pref[0]) == len(cp.node.body) - 2 if pref else False
+    R.ob('C20.HISTORY', cp.qualname, 'prefixing after every metrics extension (%d)' % len(ext), bool(okx), 'metrics added after the prefix was applied (e.g. callback metrics) would be recorded under the train key', cp.loc)
     # ---------------------------------------------------------------- EVALUATOR
     stp = model.func(TMOD + '.Evaluator.step')
     for f in (stp, model.func(TMOD + '.Evaluator.report')):
